@@ -66,6 +66,16 @@ CHECKS = {
         text="Exhaustive short-string / grammar-derivation exploration against the implementation std itself uses. Two residual classes are known findings with predicates that do not depend on the subject's output.",
         note="Trusted: rustc_parse_format of the installed nightly == std::fmt's grammar (cross-checked with stable format! on 27 literals covering all classes); the probe type's argument naming. Strings longer than the bound and alphabets outside the 31 symbols are not explored.",
         design_ref="DESIGN.md §3 C03", engine="inproc (nightly, rustc_private)"),
+    "C05": dict(
+        technique="bounded exhaustive enumeration of attribute literal classes (bare placeholder in each of 9 traits x argument forms; each modifier kind; text/escapes; several placeholders; out-of-range indices) x containers x derived traits, compiled with the real proc-macro; every case is formatted under a full grid of 224 outer format specs x 3 values per field and compared with the same grid applied to the inner argument (pass-through), with the flag-free text (inert), or must not compile",
+        text="Small-scope exhaustive exploration over (literal class, container, derived trait) with an exhaustive grid of caller format specs; the statement's predicate decides per case which of the three oracles applies.",
+        note="Trusted: std's formatting of i32/&i32 under each trait; rustc. Field type fixed to &'static i32 (implements all nine traits).",
+        design_ref="DESIGN.md §3 C05", engine="compile"),
+    "C07": dict(
+        technique="bounded exhaustive enumeration of enums (full product of 9 variant kinds for <=2 variants, 6 kinds for 3 variants in thorough) x 15 enum-level literals (with 0..2 `_variant` uses as placeholder/argument/alias, field references, escapes, rejected forms) x rename_all x {Display, LowerHex, Debug}; every value of every variant compared with a 30-line model of the documented rule built from plain format! calls; rule-rejected enums must fail to compile",
+        text="Small-scope exhaustive exploration; the model computes per variant the expected text (or rejection) from the statement's rule, and every prediction is executed against the real derive.",
+        note="Trusted: the rule model in props/c07.py; any compile error counts as rejection for rule-rejected enums (reason not matched).",
+        design_ref="DESIGN.md §3 C07", engine="compile"),
 }
 
 PENDING = ["C01", "C02", "C03", "C04", "C05", "C06", "C07", "C08", "C09", "C10", "C11", "C13", "C14", "C15", "C16",
